@@ -151,6 +151,7 @@ def main(argv=None):
         "harness_errors": errors[:5],
         "known_finding_hits": dict(known_hits),
         "inconclusive_reasons": inconclusive,
+        "slowest_cases_s": sorted(((r.get("wall", 0), r["id"]) for r in results), reverse=True)[:5],
     }
     coverage.update(extra_cov)
     wall = time.time() - t0
